@@ -2,6 +2,7 @@
 From Coq Require Import ZArith Bool.
 From Flocq Require Import Core.Core IEEE754.BinarySingleNaN.
 From Walleye Require Import Model.Prim Gen.Consts.
+From Walleye Require Export Model.GameTime.
 Open Scope Z_scope.
 
 Definition prec := 53.
@@ -47,7 +48,6 @@ Definition round_to_u128 (x : f64) : Z :=
   | _ => 0            (* negative, zero, NaN *)
   end.
 
-Record GameTime := mkGT { wtime : Z; btime : Z; winc : Z; binc : Z; movestogo : option Z }.
 
 Definition calculate_time_slice (gt : GameTime) (c : color) : Z :=
   let mtg := f64_of_Z (match movestogo gt with Some m => m | None => GAME_LENGTH end) in
